@@ -581,6 +581,15 @@ def fold(t):
         a = _cint(t[1])
         if a is not None and t[3] == "IntToInt" and int_range(t[2]):
             return ("const", ("int", _wrap(a, t[2]), t[2]))
+    elif k == "call" and len(t[2]) == 2 and re.search(r"ops::Index<I> for \[T; N\]>::index$|ops::Index<I> for \[T\]>::index$", t[1]):
+        a, r = t[2]
+        if isinstance(r, tuple) and r[0] == "agg" and (r[2] or "").endswith("ops::RangeFull"):
+            if isinstance(a, tuple) and a[0] == "const" and a[1][0] == "bytes":
+                return ("const", ("bytes", a[1][1], "&[u8]"))
+            if isinstance(a, tuple) and a[0] == "repeat" and _cint(a[1]) is not None and str(a[2]).isdigit():
+                return ("const", ("bytes", bytes([_cint(a[1]) & 0xFF]) * int(a[2]), "&[u8]"))
+            if isinstance(a, tuple) and a[0] == "agg" and a[1] == "array" and all(_cint(x) is not None for x in a[4]):
+                return ("const", ("bytes", bytes([_cint(x) & 0xFF for x in a[4]]), "&[u8]"))
     elif k == "call" and len(t[2]) == 1 and t[1].endswith("slice::<impl [T]>::len"):
         a = t[2][0]
         if isinstance(a, tuple) and a[0] == "const" and a[1][0] == "bytes":
